@@ -100,6 +100,40 @@ def variants(body):
     return out
 
 
+def _insertions(body):
+    """an extension type that is absent from the hello, added with an empty body (pre_shared_key stays last)"""
+    ch = ClientHello().parse(Parser(body[1:]))
+    present = set(e.extType for e in (ch.extensions or []))
+    out = []
+    for t in (9, 10, 11, 13, 27, 28, 34, 41, 43, 44, 45, 50, 51):
+        if t in present:
+            continue
+        ch2 = ClientHello().parse(Parser(body[1:]))
+        e = TLSExtension(extType=t).create(t, bytearray(0))
+        if ch2.extensions and ch2.extensions[-1].extType == 41:
+            ch2.extensions.insert(len(ch2.extensions) - 1, e)
+        else:
+            ch2.extensions.append(e)
+        out.append(('extension %d added with empty body' % t, ch2.write()))
+    return out
+
+
+def _legacy(body):
+    out = []
+    for ver in ((3, 1), (3, 2)):
+        for t in (43, 45, 51):
+            ch = ClientHello().parse(Parser(body[1:]))
+            ch.client_version = ver
+            hit = False
+            for i, e in enumerate(ch.extensions or []):
+                if e.extType == t:
+                    ch.extensions[i] = TLSExtension(extType=t).create(t, bytearray(0))
+                    hit = True
+            if hit:
+                out.append(('legacy version %s, extension %d with empty body' % (ver, t), ch.write()))
+    return out
+
+
 def xcheck_empty_extensions(rng, n):
     fails, ev, seen = [], 0, set()
     profiles = []
@@ -107,25 +141,35 @@ def xcheck_empty_extensions(rng, n):
     s13.pskConfigs = [(b'id', bytearray(b's' * 32))]
     s13.record_size_limit = 2048
     profiles.append(('tls13', s13))
+    s13k = HandshakeSettings()
+    s13k.pskConfigs = [(b'id', bytearray(b's' * 32))]
+    s13k.psk_modes = ['psk_ke']
+    profiles.append(('tls13-psk_ke', s13k))
     s12 = HandshakeSettings()
     s12.maxVersion = (3, 3)
     s12.record_size_limit = 2048
     profiles.append(('tls12', s12))
+
+    def srv12(st):
+        st.maxVersion = (3, 3)
+    servers = [('default server', None), ('TLS 1.2 server', srv12)]
     for pname, st in profiles:
         body = client_hello_bytes(st)
-        if serve(body) .startswith('UNDOC'):
-            fails.append({'class': 'server-base-clienthello-undocumented-exception', 'what': serve(body), 'input': {'profile': pname}})
-        for desc, b2 in variants(body):
-            r = serve(b2)
-            ev += 1
-            if r.startswith('UNDOC'):
-                key = r.split('(')[-1]
-                if key in seen:
-                    continue
-                seen.add(key)
-                fails.append({'class': 'server-malformed-extension-undocumented-exception',
-                              'what': '%s ClientHello, %s: %s' % (pname, desc, r), 'input': {'profile': pname, 'variant': desc}})
-    return {'evaluations': ev, 'distinct_nontrivial': ev, 'bound': 'every extension of the stock TLS 1.3 and TLS 1.2 ClientHello replaced by 0-3 zero bytes',
+        for sname, smod in servers:
+            for desc, b2 in variants(body) + _insertions(body) + _legacy(body):
+                r = serve(b2, smod)
+                ev += 1
+                if r.startswith('UNDOC'):
+                    key = r.split('(')[-1]
+                    if key in seen:
+                        continue
+                    seen.add(key)
+                    fails.append({'class': 'server-malformed-extension-undocumented-exception',
+                                  'what': '%s ClientHello against %s, %s: %s' % (pname, sname, desc, r),
+                                  'input': {'profile': pname, 'server': sname, 'variant': desc}})
+    return {'evaluations': ev, 'distinct_nontrivial': ev,
+            'bound': 'stock TLS 1.3 / TLS 1.3 psk_ke / TLS 1.2 ClientHello x (default, TLS 1.2-only) server: every extension replaced by 0-3 '
+                     'zero bytes, absent extensions added empty, legacy versions (3,1)/(3,2) with empty supported_versions',
             'failures': fails[:12]}
 
 
